@@ -524,6 +524,7 @@ pub fn run(op: &str, a: &Args) -> Option<Outcome> {
         ["order", "script"] => Some(crate::ops_more::order_script(arg(a, "script"))),
         ["xpath", rest @ ..] => crate::ops_more::xpath_op(rest, a),
         ["ctx", "script"] => Some(crate::ops_more::ctx_script(arg(a, "script"))),
+        ["dom", "order_keys"] => Some(crate::ops_more::dom_order_keys(arg(a, "doc"))),
         _ => None,
     }
 }
@@ -673,6 +674,11 @@ pub fn grid(op: &str, limit: usize) -> (usize, Vec<(Args, Outcome)>) {
         ["ctx", "script"] => {
             for s in crate::ops_more::ctx_scripts() {
                 try_one(mk(&[("script", s.as_str())]), &mut n, &mut bad);
+            }
+        }
+        ["dom", "order_keys"] => {
+            for d in crate::ops_more::ORDER_DOCS {
+                try_one(mk(&[("doc", d)]), &mut n, &mut bad);
             }
         }
         ["xpath", rest @ ..] => {
